@@ -1,7 +1,10 @@
 package main
 
 import (
+	"fmt"
 	"go/token"
+	"go/types"
+	"strings"
 
 	"golang.org/x/tools/go/ssa"
 )
@@ -38,19 +41,163 @@ func (st *State) lockOp(fr *Frame, m Val, mode string, acquire bool, pos token.P
 	return true
 }
 
-func (st *State) onLockAcquired(fr *Frame, m Val, id, mode string, pos token.Pos)  {}
-func (st *State) onLockReleasing(fr *Frame, m Val, id, mode string, pos token.Pos) {}
+// lockTypeContract finds the type block governing a mutex (the struct that contains the mutex field).
+func (st *State) lockTypeContract(m Val) (*Contract, *Ptr, string) {
+	p := st.asPtr(m)
+	if p.Kind != PObj || p.Path == "" {
+		return nil, nil, ""
+	}
+	tn := st.e.P.relType(p.RootT)
+	c := st.e.contracts["type "+tn]
+	if c == nil {
+		return nil, nil, ""
+	}
+	return c, p, strings.TrimPrefix(p.Path, ".")
+}
 
-func (st *State) guardAccess(fr *Frame, p *Ptr, write bool, pos token.Pos)   {}
+// onLockAcquired: with interference, the fields the mutex guards may have been changed by other threads since
+// this thread last saw them: forget them (for this object) and assume the lock invariant (monitor rule).
+func (st *State) onLockAcquired(fr *Frame, m Val, id, mode string, pos token.Pos) {
+	e := st.e
+	c, p, mf := st.lockTypeContract(m)
+	if c == nil {
+		return
+	}
+	if c.Interference {
+		st := st
+		stt := p.RootT.Underlying().(*types.Struct)
+		for _, g := range c.Guards {
+			if g.CallOut || g.Lock != mf {
+				continue
+			}
+			idx, f := findField(stt, g.Field)
+			if idx < 0 {
+				continue
+			}
+			for _, cp := range e.flatten(f.Type()) {
+				name := heapName(e, p.RootT, "."+g.Field+cp.Path)
+				e.noteRef(name, cp)
+				a := st.arr(name, arrSort(cp.Sort))
+				nv := st.fresh("interf."+g.Field+cp.Path, cp.Sort)
+				st.assumeRange(cp, nv)
+				st.setArr(name, arrSort(cp.Sort), store(a, p.Root, nv))
+			}
+		}
+		e.assumeUsed("monitor rule (M1): lock invariants assumed at Lock and proved at Unlock hold whenever the mutex is free, in every interleaving")
+	}
+	self := Val{T: types.NewPointer(p.RootT), C: []string{p.Root}}
+	for _, inv := range c.LockInvs[mf] {
+		sc := &SpecCtx{st: st, vars: map[string]Val{"self": self}, old: fr.old, where: "lockinv " + c.Name}
+		st.assume(e.evalClause(sc, inv))
+	}
+	st.lockSnap = st.snapshot()
+}
+
+// onLockReleasing: the lock invariant must hold again when the mutex is released.
+func (st *State) onLockReleasing(fr *Frame, m Val, id, mode string, pos token.Pos) {
+	e := st.e
+	c, p, mf := st.lockTypeContract(m)
+	if c == nil {
+		return
+	}
+	self := Val{T: types.NewPointer(p.RootT), C: []string{p.Root}}
+	for i, inv := range c.LockInvs[mf] {
+		sc := &SpecCtx{st: st, vars: map[string]Val{"self": self}, old: fr.old, where: "lockinv " + c.Name}
+		label := inv.Label
+		if label == "" {
+			label = fmt.Sprintf("%s.%s#%d", strings.TrimPrefix(c.Name, "type "), mf, i+1)
+		}
+		props := inv.Props
+		if len(props) == 0 {
+			props = c.Props
+		}
+		st.oblige("lock", "inv:"+label, props, e.evalClause(sc, inv), pos)
+	}
+}
+
+// guardAccess checks the field-guard discipline: a field declared "guardedby" a sibling mutex may only be
+// accessed while that mutex is held (W for writes, R or W for reads), unless the object is still private
+// to this call (allocated here and not yet published).
+func (st *State) guardAccess(fr *Frame, p *Ptr, write bool, pos token.Pos) {
+	if p.Kind != PObj || p.Path == "" {
+		return
+	}
+	e := st.e
+	tn := e.P.relType(p.RootT)
+	c := e.contracts["type "+tn]
+	if c == nil {
+		return
+	}
+	for _, g := range c.Guards {
+		if g.CallOut {
+			continue
+		}
+		if p.Path == "."+g.Field || strings.HasPrefix(p.Path, "."+g.Field+".") {
+			if st.private[p.Root] {
+				return
+			}
+			id := tn + "." + g.Lock + "@" + p.Root
+			mode, held := st.locks[id]
+			ok := held && (!write || mode == "W")
+			goal := "true"
+			if !ok {
+				goal = "false"
+			}
+			rw := "read"
+			if write {
+				rw = "write"
+			}
+			props := g.Props
+			if len(props) == 0 {
+				props = c.Props
+			}
+			st.oblige("lock", fmt.Sprintf("held:%s.%s:%s", tn, g.Field, rw), mergeProps(props, nil), goal, pos)
+			return
+		}
+	}
+}
 func (st *State) guardAtomic(fr *Frame, p *Ptr, write bool, pos token.Pos)   {}
 func (st *State) guardMapAccess(fr *Frame, m Val, write bool, pos token.Pos) {}
-func (st *State) checkCallOutAllowed(fr *Frame, kind string, pos token.Pos)  {}
-func (st *State) onGo(fr *Frame, x *ssa.Go, fv Val)                          {}
-func (st *State) onChanRecv(fr *Frame, ch Val, pos token.Pos)                {}
-func (st *State) onChanClose(fr *Frame, ch Val, pos token.Pos)               {}
-func (st *State) checkBorrowWrite(fr *Frame, s Val, pos token.Pos)           {}
-func (st *State) checkBorrowRead(fr *Frame, s Val, pos token.Pos)            {}
-func (st *State) onFunctionEntry(fr *Frame)                                  {}
+
+// checkCallOutAllowed: call-outs declared "calloutunder" must run while the receiver's mutex is held.
+func (st *State) checkCallOutAllowed(fr *Frame, kind string, pos token.Pos) {
+	e := st.e
+	i := strings.Index(kind, ".")
+	if i <= 0 {
+		return
+	}
+	tn := kind[:i]
+	c := e.contracts["type "+tn]
+	if c == nil {
+		return
+	}
+	for _, g := range c.Guards {
+		if !g.CallOut || tn+"."+g.Field != kind {
+			continue
+		}
+		top := st.frames[0]
+		if len(top.params) == 0 {
+			continue
+		}
+		id := tn + "." + g.Lock + "@" + top.params[0].C[0]
+		mode, held := st.locks[id]
+		goal := "false"
+		if held && mode == "W" {
+			goal = "true"
+		}
+		props := g.Props
+		if len(props) == 0 {
+			props = c.Props
+		}
+		st.oblige("lock", "callout-under:"+kind, mergeProps(props, nil), goal, pos)
+	}
+}
+func (st *State) onGo(fr *Frame, x *ssa.Go, fv Val)                {}
+func (st *State) onChanRecv(fr *Frame, ch Val, pos token.Pos)      {}
+func (st *State) onChanClose(fr *Frame, ch Val, pos token.Pos)     {}
+func (st *State) checkBorrowWrite(fr *Frame, s Val, pos token.Pos) {}
+func (st *State) checkBorrowRead(fr *Frame, s Val, pos token.Pos)  {}
+func (st *State) onFunctionEntry(fr *Frame)                        {}
 func (st *State) onFunctionExit(fr *Frame, pos token.Pos) {
 	// every lock acquired by the function is released on return
 	for id := range st.locks {
